@@ -18,7 +18,7 @@ ASSUMPTIONS = [
     "fidelity() uses scipy.linalg.sqrtm and is not encodable: outside the claim",
 ]
 BOUNDS = {
-    "quick": "n = 1, 2 qubits; base circuits: empty, a symbolic single-qubit unitary, the post-selected CNOT and the heralded CZ from the library (ancilla modes present)",
+    "quick": "n = 1, 2 qubits (and n = 3 with an empty base circuit); base circuits: empty, a symbolic single-qubit unitary, the post-selected CNOT and the heralded CZ from the library (ancilla modes present)",
     "thorough": "n = 3 (27 circuits, 64x64 linear forms) with an empty base and with CCZ",
 }
 OUTSIDE = "fidelity values (sqrtm); finite-shot statistics; n > 3"
@@ -165,7 +165,8 @@ def h_state_tomography(ctx, n, kind):
 
 def harnesses(tier):
     cases = [dict(n=1, kind="empty"), dict(n=1, kind="unitary"), dict(n=2, kind="empty"), dict(n=2, kind="unitary"), dict(n=2, kind="cnot"), dict(n=2, kind="cz_heralded")]
+    cases.append(dict(n=3, kind="empty"))
     if tier != "quick":
-        cases += [dict(n=3, kind="empty"), dict(n=3, kind="ccz")]
+        cases += [dict(n=3, kind="ccz")]
     return [("state-tomography", h_state_tomography, cases, dict(max_seconds=1500)),
             ("state-tomography.raw", h_state_tomography, [c for c in cases if c["n"] == 1], dict(raw=True))]
